@@ -38,6 +38,8 @@ Inductive pc :=
 | Returned.
 
 Record call := mkcall {
+  k_px : nat (* the ServantProxy the call was made on: queueLen is that proxy's counter; several proxies for one object
+                share the endpoint manager (invokeNum) and its adapters (the pending-reply table, the connection) *);
   k_ow : bool (* one-way call *); k_start : N; k_dl : N; k_pc : pc; k_t0 : N (* begin of the current wait *);
   k_lockt : N (* ghost: when connLock was acquired *); k_d : bool (* ghost: this call dialled *);
   k_e : bool (* ghost: time passed while waiting to enqueue *);
@@ -56,19 +58,19 @@ Record transp := mktr { idle_since : N; tinv : Z; conn_t : N; conns : N;
 
 Record state := mkst {
   now : N; calls : list call; rcvs : list rcv;
-  queueLen : Z; invokeNum : Z; resp : list nat (* calls that have an entry in the pending-reply table *);
+  queueLen : nat -> Z (* per ServantProxy *); invokeNum : Z; resp : list nat (* calls that have an entry in the pending-reply table *);
   conn_open : bool; lock : option nat; sendq : list nat; wire : list nat (* ghost: requests written to the peer *);
   sent : list (N * N) (* ghost: packets the peer emitted *);
   tr : transp }.
 
-Definition init : state := mkst 0 [] [] 0%Z 0%Z [] false None [] [] [] (mktr 0 0%Z 0 0 0).
+Definition init : state := mkst 0 [] [] (fun _ => 0%Z) 0%Z [] false None [] [] [] (mktr 0 0%Z 0 0 0).
 
 (* the request id of call i is i+1 (ids of outstanding calls are distinct and non-zero: C08) *)
 Definition id_of (i : nat) : N := N.of_nat (S i).
 Definition call_of (id : N) : option nat := if id =? 0 then None else Some (pred (N.to_nat id)).
 
 Inductive label :=
-| Tick | Start (d : N) (ow : bool)
+| Tick | Start (d : N) (ow : bool) (px : nat)
 | LPre (i : nat) | LReg (i : nat) | LQueueFull (i : nat) | LLock (i : nat)
 | LDialOk (i : nat) | LDialFail (i : nat) | LDialTimeout (i : nat)
 | LEnq (i : nat) | LEnqTimeout (i : nat) | LCtxFire (i : nat) | LClean (i : nat) | LPost (i : nat)
@@ -85,27 +87,28 @@ Fixpoint upd {A} (l : list A) (i : nat) (x : A) : list A :=
   | h :: t, S j => h :: upd t j x
   end.
 
+Definition fset (f : nat -> Z) (p : nat) (v : Z) : nat -> Z := fun q => if Nat.eqb q p then v else f q.
 Definition memb (i : nat) (l : list nat) : bool := existsb (Nat.eqb i) l.
 Definition remove_nat (i : nat) (l : list nat) : list nat := filter (fun j => negb (Nat.eqb i j)) l.
 
 Definition set_pc (k : call) (p : pc) : call :=
-  mkcall (k_ow k) (k_start k) (k_dl k) p (k_t0 k) (k_lockt k) (k_d k) (k_e k) (k_out k) (k_ret k) (k_rel0 k) (k_w k).
+  mkcall (k_px k) (k_ow k) (k_start k) (k_dl k) p (k_t0 k) (k_lockt k) (k_d k) (k_e k) (k_out k) (k_ret k) (k_rel0 k) (k_w k).
 Definition set_wait (k : call) (p : pc) (t : N) : call :=
-  mkcall (k_ow k) (k_start k) (k_dl k) p t (k_lockt k) (k_d k) (k_e k) (k_out k) (k_ret k) (k_rel0 k) (k_w k).
+  mkcall (k_px k) (k_ow k) (k_start k) (k_dl k) p t (k_lockt k) (k_d k) (k_e k) (k_out k) (k_ret k) (k_rel0 k) (k_w k).
 Definition set_lock (k : call) (p : pc) (t : N) (d : bool) (w : N) : call :=
-  mkcall (k_ow k) (k_start k) (k_dl k) p t t d (k_e k) (k_out k) (k_ret k) (k_rel0 k) w.
+  mkcall (k_px k) (k_ow k) (k_start k) (k_dl k) p t t d (k_e k) (k_out k) (k_ret k) (k_rel0 k) w.
 Definition set_reg (k : call) (r : N) : call :=
-  mkcall (k_ow k) (k_start k) (k_dl k) Reg (k_t0 k) (k_lockt k) (k_d k) (k_e k) (k_out k) (k_ret k) r (k_w k).
+  mkcall (k_px k) (k_ow k) (k_start k) (k_dl k) Reg (k_t0 k) (k_lockt k) (k_d k) (k_e k) (k_out k) (k_ret k) r (k_w k).
 Definition set_out (k : call) (o : outcome) (e : bool) : call :=
-  mkcall (k_ow k) (k_start k) (k_dl k) Done (k_t0 k) (k_lockt k) (k_d k) e (Some o) (k_ret k) (k_rel0 k) (k_w k).
+  mkcall (k_px k) (k_ow k) (k_start k) (k_dl k) Done (k_t0 k) (k_lockt k) (k_d k) e (Some o) (k_ret k) (k_rel0 k) (k_w k).
 Definition set_full (k : call) : call :=
-  mkcall (k_ow k) (k_start k) (k_dl k) Cleaned (k_t0 k) (k_lockt k) (k_d k) (k_e k) (Some Error) (k_ret k) (k_rel0 k) (k_w k).
+  mkcall (k_px k) (k_ow k) (k_start k) (k_dl k) Cleaned (k_t0 k) (k_lockt k) (k_d k) (k_e k) (Some Error) (k_ret k) (k_rel0 k) (k_w k).
 Definition set_enq (k : call) (e : bool) : call :=
   if k_ow k
-  then mkcall (k_ow k) (k_start k) (k_dl k) Done (k_t0 k) (k_lockt k) (k_d k) e (Some Sent) (k_ret k) (k_rel0 k) (k_w k)   (* one-way: returns at once *)
-  else mkcall (k_ow k) (k_start k) (k_dl k) Waiting (k_t0 k) (k_lockt k) (k_d k) e (k_out k) (k_ret k) (k_rel0 k) (k_w k).
+  then mkcall (k_px k) (k_ow k) (k_start k) (k_dl k) Done (k_t0 k) (k_lockt k) (k_d k) e (Some Sent) (k_ret k) (k_rel0 k) (k_w k)   (* one-way: returns at once *)
+  else mkcall (k_px k) (k_ow k) (k_start k) (k_dl k) Waiting (k_t0 k) (k_lockt k) (k_d k) e (k_out k) (k_ret k) (k_rel0 k) (k_w k).
 Definition set_ret (k : call) (t : N) : call :=
-  mkcall (k_ow k) (k_start k) (k_dl k) Returned (k_t0 k) (k_lockt k) (k_d k) (k_e k) (k_out k) t (k_rel0 k) (k_w k).
+  mkcall (k_px k) (k_ow k) (k_start k) (k_dl k) Returned (k_t0 k) (k_lockt k) (k_d k) (k_e k) (k_out k) t (k_rel0 k) (k_w k).
 
 Definition with_calls (s : state) (cs : list call) : state :=
   mkst (now s) cs (rcvs s) (queueLen s) (invokeNum s) (resp s) (conn_open s) (lock s) (sendq s) (wire s) (sent s) (tr s).
@@ -139,7 +142,7 @@ Definition step (c : cfg) (s : state) (l : label) : option state :=
   match l with
   | Tick => if urgent c s then None
             else Some (mkst (now s + 1) (calls s) (rcvs s) (queueLen s) (invokeNum s) (resp s) (conn_open s) (lock s) (sendq s) (wire s) (sent s) (tr s))
-  | Start d ow => Some (with_calls s (calls s ++ [mkcall ow (now s) (now s + d) Init (now s) (now s) false false None 0 0 0]))
+  | Start d ow px => Some (with_calls s (calls s ++ [mkcall px ow (now s) (now s + d) Init (now s) (now s) false false None 0 0 0]))
   | LPre i =>
       match nth_error (calls s) i with
       | Some k => match k_pc k with
@@ -155,7 +158,7 @@ Definition step (c : cfg) (s : state) (l : label) : option state :=
   | LQueueFull i =>   (* "invoke queue is full": returns before anything is registered *)
       match nth_error (calls s) i with
       | Some k => match k_pc k with
-                  | Pre => if (qmax c <? queueLen s)%Z
+                  | Pre => if (qmax c <? queueLen s (k_px k))%Z
                            then Some (with_calls s (upd (calls s) i (set_full k)))
                            else None
                   | _ => None end
@@ -283,14 +286,14 @@ Definition step (c : cfg) (s : state) (l : label) : option state :=
   | LCount i =>   (* the queue-limit check passed: atomic.AddInt32(&s.queueLen, 1) *)
       match nth_error (calls s) i with
       | Some k => match k_pc k with
-                  | Pre => if (qmax c <? queueLen s)%Z then None
-                           else Some (mkst (now s) (upd (calls s) i (set_pc k Counted)) (rcvs s) (queueLen s + 1)%Z (invokeNum s) (resp s) (conn_open s) (lock s) (sendq s) (wire s) (sent s) (tr s))
+                  | Pre => if (qmax c <? queueLen s (k_px k))%Z then None
+                           else Some (mkst (now s) (upd (calls s) i (set_pc k Counted)) (rcvs s) (fset (queueLen s) (k_px k) (queueLen s (k_px k) + 1)%Z) (invokeNum s) (resp s) (conn_open s) (lock s) (sendq s) (wire s) (sent s) (tr s))
                   | _ => None end
       | None => None end
   | LUncount i =>   (* deferred: atomic.AddInt32(&s.queueLen, -1) *)
       match nth_error (calls s) i with
       | Some k => match k_pc k with
-                  | Done => Some (mkst (now s) (upd (calls s) i (set_pc k Uncounted)) (rcvs s) (queueLen s - 1)%Z (invokeNum s) (resp s) (conn_open s) (lock s) (sendq s) (wire s) (sent s) (tr s))
+                  | Done => Some (mkst (now s) (upd (calls s) i (set_pc k Uncounted)) (rcvs s) (fset (queueLen s) (k_px k) (queueLen s (k_px k) - 1)%Z) (invokeNum s) (resp s) (conn_open s) (lock s) (sendq s) (wire s) (sent s) (tr s))
                   | _ => None end
       | None => None end
   | LFilterErr i =>   (* a client filter returns an error without invoking: nothing is registered, postInvoke still runs *)
@@ -332,6 +335,7 @@ Record scen := mkscen {
   sc_cfg : cfg; sc_conn : connmode; sc_acts : list act; sc_callers : nat; sc_calls : nat; sc_tmo : tmo;
   sc_gaps : list N (* pause after the j-th call of a sequential caller; the last one repeats *);
   sc_oneway : bool;
+  sc_proxies : nat (* n > 0: the callers use n ServantProxy objects for the one object, call number i proxy i mod n *);
   sc_cancel : option N (* the caller cancels its context this long after the start of the call *);
   sc_reject : nat (* n > 0: the client filter rejects every call whose index is n-1 modulo n *);
   sc_prime : bool (* concurrent callers only: one call alone first, the callers start when it has returned *) }.
@@ -386,7 +390,7 @@ Definition want_start (sc : scen) (s : state) : bool :=
 Definition call_label_r (rejected : bool) (c : cfg) (s : state) (i : nat) (k : call) : label :=
   match k_pc k with
   | Init => LPre i
-  | Pre => if rejected then LFilterErr i else if (qmax c <? queueLen s)%Z then LQueueFull i else LCount i
+  | Pre => if rejected then LFilterErr i else if (qmax c <? queueLen s (k_px k))%Z then LQueueFull i else LCount i
   | Counted => LReg i
   | Reg => LLock i | Dialing => LDialTimeout i
   | Enq => if N.of_nat (length (sendq s)) <? qcap c then LEnq i else LEnqTimeout i
@@ -413,7 +417,7 @@ Definition due (now : N) (p : N * N * N) : bool := let '(t, _, _) := p in t <=? 
 (* one scheduling decision: the label to take and the new scheduler state *)
 Definition sched (sc : scen) (s : state) (e : env) : label * env :=
   let c := sc_cfg sc in
-  if want_start sc s then (Start (eff_of (sc_tmo sc)) (sc_oneway sc), e) else
+  if want_start sc s then (Start (eff_of (sc_tmo sc)) (sc_oneway sc) (match sc_proxies sc with O => O | S _ => Nat.modulo (length (calls s)) (sc_proxies sc) end), e) else
   match e_down e with
   | S n => (if conn_open s then LConnDown else LPeerPkt 0 0, mkenv (e_pend e) n)
   | O =>
@@ -516,7 +520,7 @@ Definition of_cls {A} (cl : ocls) (l : list (ocls * A)) : list A :=
 Definition predicted (sc : scen) (obs : list (ocls * N)) : bool :=
   let '(s, _, ok) := canonical sc in
   let m := model_calls s in
-  ok && (queueLen s =? 0)%Z && (invokeNum s =? 0)%Z && match resp s with [] => true | _ => false end &&
+  ok && forallb (fun p => (queueLen s p =? 0)%Z) (seq 0 (S (sc_proxies sc))) && (invokeNum s =? 0)%Z && match resp s with [] => true | _ => false end &&
   if Nat.ltb 1 (sc_callers sc)
   then forallb (fun cl => times_agree (sort_n (of_cls cl m)) (sort_n (of_cls cl obs))) [OReply; OTimeout; OError; OSent; OOther]
   else list_eqb ocls_eqb (map fst m) (map fst obs) && times_agree (map snd m) (map snd obs).
@@ -603,13 +607,13 @@ Definition accepts (es : list event) : bool :=
    peer send = LPeerPkt *)
 Definition events_of (s : state) (l : label) (s' : state) : list event :=
   match l with
-  | Start _ _ => [EStart (length (calls s))]
+  | Start _ _ _ => [EStart (length (calls s))]
   | LCount i => [EPre i (id_of i)]
   | LQueueFull i | LFilterErr i => [EPre i (id_of i); EPost i]
   | LClean i => [EPost i]
   | LPost i => match nth_error (calls s') i with
                | Some k => [ERet i (cls_of (k_out k)) (match k_out k with Some (Reply p) => p | _ => 0 end)
-                              (Z.to_N (queueLen s')) (Z.to_N (invokeNum s')) (N.of_nat (length (resp s')))]
+                              (Z.to_N (queueLen s' (k_px k))) (Z.to_N (invokeNum s')) (N.of_nat (length (resp s')))]
                | None => [] end
   | LSendTake => match sendq s with i :: _ => [EPeerRecv (id_of i)] | [] => [] end
   | LPeerPkt id pay => [EPeerSend id pay]
@@ -641,12 +645,12 @@ Definition model_held (sc : scen) : N :=
 (* ---------- a correspondence case ---------- *)
 Record c09case := mkcase {
   cc_cfg : cfg; cc_conn : connmode; cc_acts : list act; cc_callers : nat; cc_calls : nat; cc_tmo : tmo; cc_gaps : list N;
-  cc_oneway : bool; cc_cancel : option N; cc_reject : nat; cc_prime : bool; cc_predict : bool;
+  cc_oneway : bool; cc_proxies : nat; cc_cancel : option N; cc_reject : nat; cc_prime : bool; cc_predict : bool;
   cc_conns : option N (* connections the peer accepted, where the script makes that number definite (idle periods) *);
   cc_held : option N (* largest number of reply receivers seen blocked at once, when sampled *); cc_obs : list (ocls * N); cc_events : list event; cc_final : N * N * N }.
 
 Definition c09_check (x : c09case) : bool :=
-  let sc := mkscen (cc_cfg x) (cc_conn x) (cc_acts x) (cc_callers x) (cc_calls x) (cc_tmo x) (cc_gaps x) (cc_oneway x) (cc_cancel x) (cc_reject x) (cc_prime x) in
+  let sc := mkscen (cc_cfg x) (cc_conn x) (cc_acts x) (cc_callers x) (cc_calls x) (cc_tmo x) (cc_gaps x) (cc_oneway x) (cc_proxies x) (cc_cancel x) (cc_reject x) (cc_prime x) in
   (if cc_predict x then predicted sc (cc_obs x) && model_trace_ok sc &&
                         match cc_held x with Some h => model_held sc <=? h | None => true end &&
                         match cc_conns x with Some n => (let '(s, _, _) := canonical sc in conns (tr s)) =? n | None => true end
